@@ -48,8 +48,11 @@ def build_color_doc(spec, shared=None):
     import rtflite as rtf
 
     def comp_kw(name):
-        t, b, f = (spec.get("comp", {}).get(name) or ["", "", 0])[:3]
+        cc = spec.get("comp", {}).get(name) or ["", "", 0]
+        t, b, f = cc[:3]
         kw = {}
+        if len(cc) > 3 and cc[3] and name in ("header", "footnote", "source"):
+            kw["border_color_top"] = cc[3]
         if t:
             kw["text_color"] = t
         if b:
@@ -79,7 +82,8 @@ def build_color_doc(spec, shared=None):
     if "footnote" in comp:
         kw["rtf_footnote"] = rtf.RTFFootnote(text="~FN~", **comp_kw("footnote"))
     if "source" in comp:
-        kw["rtf_source"] = rtf.RTFSource(text="~SRC~", **comp_kw("source"))
+        cs = comp["source"]
+        kw["rtf_source"] = rtf.RTFSource(text="~SRC~", **({"as_table": True} if len(cs) > 3 and cs[3] else {}), **comp_kw("source"))
     dfs, bodies, headers = [], [], []
     for si, s in enumerate(spec["sections"]):
         n, m = s["n"], s["m"]
@@ -190,11 +194,14 @@ def observe_colors(text, spec):
                             if bb is not None:
                                 ev.append({"kind": "brdr", "role": role + "." + key, "idx": bb[2] or 0,
                                            "want": body_want(si, r, j, key)})
-                    elif h:
-                        add_runs("header", cell, want_comp("header", "text"), want_comp("header", "bg"), want_font("header"))
-                    elif cell.text in PARA_ROLES:
-                        role = PARA_ROLES[cell.text]
+                    elif h or cell.text in PARA_ROLES:
+                        role = "header" if h else PARA_ROLES[cell.text]
                         add_runs(role, cell, want_comp(role, "text"), want_comp(role, "bg"), want_font(role))
+                        cc = spec.get("comp", {}).get(role) or []
+                        dd = b.defs[k] if k < len(b.defs) else {"borders": {}}
+                        bb = dd["borders"].get("t")
+                        if bb is not None and (len(cc) > 3 and cc[3] or bb[2]):
+                            ev.append({"kind": "brdr", "role": role + ".top", "idx": bb[2] or 0, "want": rgb(cc[3]) if len(cc) > 3 else []})
     for pg in d.pages:
         scan(pg.blocks)
     for hb in d.headers:
